@@ -1,6 +1,6 @@
 import FV.Emplace
 import FV.Walk
-/-! Specification side: the content an initialiser *specifies*, rendered canonically (no capacities).
+/-! Specification side: the content an initialiser *specifies*, as a `Val` without capacities.
 Independent of how emplacers lay anything out: sized values are read from their own byte image. -/
 namespace FV
 
@@ -14,40 +14,43 @@ def stripCapsL : List Char → Bool → List Char
 def stripCaps (s : String) : String := String.ofList (stripCapsL s.toList false)
 
 /-- content of a sized value given by its image -/
-def specSized (t : Ty) (v : Bytes) : Res String := (t.walk ⟨0, v⟩).bind fun w => .ok (stripCaps w)
+def specSizedV (t : Ty) (v : Bytes) : Res Val := (t.dict.walk ⟨0, v⟩).map Val.strip
 
-def specSizedL : List Ty → List Bytes → Res (List String)
+def specSizedLV : List Ty → List Bytes → Res (List Val)
   | [], _ => .ok []
   | _ :: _, [] => .fault .panic
-  | t :: ts, v :: vs => (specSized t v).bind fun x => (specSizedL ts vs).bind fun xs => .ok (x :: xs)
+  | t :: ts, v :: vs => (specSizedV t v).bind fun x => (specSizedLV ts vs).bind fun xs => .ok (x :: xs)
 
-def specElems (t : Ty) : List Bytes → Res (List String)
+def specElemsV (t : Ty) : List Bytes → Res (List Val)
   | [] => .ok []
-  | v :: vs => (specSized t v).bind fun x => (specElems t vs).bind fun xs => .ok (x :: xs)
-
-def tagged (i : Nat) (xs : List String) : String := if xs.isEmpty then s!"<{i}>" else s!"<{i} {joinSp xs}>"
+  | v :: vs => (specSizedV t v).bind fun x => (specElemsV t vs).bind fun xs => .ok (x :: xs)
 
 mutual
-def specOf : Ty → Init → Res String
-  | t, .raw v => specSized t v
-  | .vec et _, .vecEmpty => .ok (if et.dict.ssize = 0 then "V[*0]" else "V[]")
-  | .vec et _, .vecArr xs => if et.dict.ssize = 0 then .ok s!"V[*{xs.length}]" else (specElems et xs).bind fun es => .ok ("V[" ++ joinSp es ++ "]")
-  | .vec et _, .vecIter xs => if et.dict.ssize = 0 then .ok s!"V[*{xs.length}]" else (specElems et xs).bind fun es => .ok ("V[" ++ joinSp es ++ "]")
-  | .str _, .strEmpty => .ok "S:"
-  | .str _, .strFrom v => .ok ("S:" ++ hexOf v)
-  | .flex _ _, .flexEmpty => .ok "F[]"
-  | .flex it _, .flexIter items => (specItems it items).bind fun xs => .ok ("F[" ++ joinSp xs ++ "]")
+/-- **the content an initialiser specifies** -/
+def specV : Ty → Init → Res Val
+  | t, .raw v => specSizedV t v
+  | .vec et _, .vecEmpty => .ok (if et.dict.ssize = 0 then .vecZ 0 0 else .vec 0 [])
+  | .vec et _, .vecArr xs => if et.dict.ssize = 0 then .ok (.vecZ 0 xs.length) else (specElemsV et xs).bind fun es => .ok (.vec 0 es)
+  | .vec et _, .vecIter xs => if et.dict.ssize = 0 then .ok (.vecZ 0 xs.length) else (specElemsV et xs).bind fun es => .ok (.vec 0 es)
+  | .str _, .strEmpty => .ok (.str 0 [])
+  | .str _, .strFrom v => .ok (.str 0 v)
+  | .flex _ _, .flexEmpty => .ok (.flex [])
+  | .flex it _, .flexIter items => (specItemsV it items).bind fun xs => .ok (.flex xs)
   | .ustruct fs last, .ustruct vals li =>
-    (specSizedL fs vals).bind fun xs => (specOf last li).bind fun x => .ok ("(" ++ joinSp (xs ++ [x]) ++ ")")
-  | .uenum _ vs, .uenum idx vals none => (specSizedL (vs.getD idx []) vals).bind fun xs => .ok (tagged idx xs)
+    (specSizedLV fs vals).bind fun xs => (specV last li).bind fun x => .ok (.tuple (xs ++ [x]))
+  | .uenum _ vs, .uenum idx vals none => (specSizedLV (vs.getD idx []) vals).bind fun xs => .ok (.tag idx xs)
   | .uenum _ vs, .uenum idx vals (some li) =>
     let v := vs.getD idx []
     match v.getLast? with
     | none => .fault .panic
-    | some lt => (specSizedL v.dropLast vals).bind fun xs => (specOf lt li).bind fun x => .ok (tagged idx (xs ++ [x]))
+    | some lt => (specSizedLV v.dropLast vals).bind fun xs => (specV lt li).bind fun x => .ok (.tag idx (xs ++ [x]))
   | _, _ => .fault .panic
-def specItems (it : Ty) : List Init → Res (List String)
+def specItemsV (it : Ty) : List Init → Res (List Val)
   | [] => .ok []
-  | i :: is => (specOf it i).bind fun x => (specItems it is).bind fun xs => .ok (x :: xs)
+  | i :: is => (specV it i).bind fun x => (specItemsV it is).bind fun xs => .ok (x :: xs)
 end
+
+/-- text forms used by the driver -/
+def specSized (t : Ty) (v : Bytes) : Res String := (specSizedV t v).map (Val.render false)
+def specOf (t : Ty) (i : Init) : Res String := (specV t i).map (Val.render false)
 end FV
